@@ -163,6 +163,10 @@ impl UWorld {
         self.touch();
     }
     pub fn get_err(&mut self, who: usize, e: &PoolError, nonblocking: bool) {
+        let after_close = self.calls.get(&who).map(|c| c.after_close).unwrap_or(false);
+        if after_close && !matches!(e, PoolError::Closed) {
+            self.violate(&["C12"], "wrong-error-after-close", format!("a call started after close() returned failed with {:?} instead of Closed", e));
+        }
         match e {
             PoolError::Timeout => {
                 if !nonblocking {
@@ -298,6 +302,9 @@ fn finish_add(who: usize, id: usize, r: Result<(), (UObj, PoolError)>, nonblocki
                 }
                 w.objs[id].loc = ULoc::Back;
                 let c = w.end(who).unwrap();
+                if c.after_close && !matches!(e, PoolError::Closed) {
+                    w.violate(&["C12"], "wrong-error-after-close", format!("an add started after close() returned handed object {} back with {:?} instead of Closed", id, e));
+                }
                 match e {
                     PoolError::Timeout => {
                         if !nonblocking {
